@@ -43,3 +43,8 @@ Proof.
   intros a0; destruct a0; open_rowf; v64f_start;
     (split; [eexists; split; [reflexivity|apply u32_small; apply bits32_range]|reflexivity]).
 Qed.
+Lemma r_c_vop1_22 : row_ok_f64 M32 M32 M32 CDNA3 F_VOP1 22.
+Proof.
+  open_rowf; v64f_start;
+    (split; [eexists; split; [reflexivity|split; [apply bits64_range|reflexivity]]|reflexivity]).
+Qed.
